@@ -22,7 +22,7 @@ ASSUMPTIONS = [
 NSHARDS = {"quick": 32, "thorough": 64}
 BUDGET_S = {"quick": 240, "thorough": 2400}
 MIN_HITS = {
-    'quick': {"variant": 6849, "expect_accept": 2226, "expect_reject": 4559, "mutation_still_valid": 2034, "family_p2pk": 48, "family_p2pkh": 47, "family_multisig": 96, "lib_signed": 80, "with_separator": 131, "reversed_digest": 192, "legacy_flag": 96, "forkid_flag": 96},
+    'quick': {"variant": 7001, "expect_accept": 2127, "expect_reject": 4809, "mutation_still_valid": 1935, "family_p2pk": 47, "family_p2pkh": 47, "family_multisig": 97, "lib_signed": 79, "with_separator": 141, "reversed_digest": 192, "legacy_flag": 96, "forkid_flag": 96},
     'thorough': {"variant": 307653, "expect_accept": 110476, "expect_reject": 197176, "mutation_still_valid": 100876, "family_multisig": 4819, "lib_signed": 3933, "with_separator": 6889, "reversed_digest": 9600},
 }
 FLAGS = [0x01, 0x02, 0x03, 0x81, 0x82, 0x83, 0x41, 0x42, 0x43, 0xC1, 0xC2, 0xC3]
@@ -57,6 +57,15 @@ def cases(ctx):
         tx["ins"][idx]["script"] = b""
         n = r.choice([1, 2, 3])
         m = r.randrange(1, n + 1)
+        dup = fam == "multisig" and i % 4 == 1
+        if dup:
+            # the SAME public key listed twice, both copies signing: two byte-identical signatures (deterministic nonces)
+            n, m = r.choice([2, 3]), 2
+        keys_ = ["%064x" % (r.choice([1, 2, ec.N - 1]) if r.random() < 0.1 else r.randrange(1, ec.N)) for _ in range(n if fam == "multisig" else 1)]
+        comp_ = [r.random() < 0.6 for _ in range(3)]
+        if dup:
+            keys_[1] = keys_[0]
+            comp_[1] = comp_[0]
         yield {
             "k": "scn",
             "family": fam,
@@ -65,8 +74,9 @@ def cases(ctx):
             "idx": idx,
             "value": r.choice([0, 1, 2**64 - 1, 0x0102030405060708, r.getrandbits(64)]),
             "flag": flag,
-            "keys": ["%064x" % (r.choice([1, 2, ec.N - 1]) if r.random() < 0.1 else r.randrange(1, ec.N)) for _ in range(n if fam == "multisig" else 1)],
-            "compressed": [r.random() < 0.6 for _ in range(3)],
+            "keys": keys_,
+            "compressed": comp_,
+            "dup_keys": dup,
             "m": m,
             "sep": r.choice([None, None, "lead", "mid", "before_op", "two", "trail"]),
             # a conditional block in front of the spend template: executed / skipped branches, with code separators inside or after them
@@ -395,6 +405,8 @@ def judge(ctx, case):
     sc = Scenario(case)
     if case.get("pad"):
         ctx.hit("subscript>=253")
+    if case.get("dup_keys"):
+        ctx.hit("multisig_same_key_twice")
     if sc.cond:
         ctx.hit("with_conditional")
         ctx.hit("cond_" + sc.cond)
@@ -411,7 +423,7 @@ def judge(ctx, case):
         return
     z0 = int.from_bytes(d0, "big")
     signers = list(range(case["m"])) if fam == "multisig" else [0]
-    if fam == "multisig" and len(sc.keys) > case["m"] and rnd.random() < 0.5:
+    if fam == "multisig" and len(sc.keys) > case["m"] and rnd.random() < 0.5 and not case.get("dup_keys"):
         signers = sorted(rnd.sample(range(len(sc.keys)), case["m"]))
     sigs = []
     for si in signers:
@@ -436,7 +448,18 @@ def judge(ctx, case):
 
     variants = []  # (name, tx, value, unlocking tokens, locking tokens)
 
-    def add(name, tx=None, val=None, un=None, lk=None):
+    def add(name, tx=None, val=None, un=None, lk=None, resign=False):
+        if resign:
+            # the locking script itself differs: fresh reference signatures over the subscript of THAT script
+            try:
+                dz = sc.digest(tx0, flag, value, lk)
+            except sighash.NoSingleOutput:
+                return
+            ns = []
+            for si in signers:
+                e_ = ec.sign_det(sc.keys[si], dz)
+                ns.append(ec.der_encode(e_[0], e_[1]) + bytes([flag]))
+            un = unlocking_of(ns)
         variants.append((name, tx if tx is not None else tx0, value if val is None else val, un if un is not None else unlocking_of(sigs), lk if lk is not None else sc.locking))
 
     add("unmodified")
@@ -501,7 +524,7 @@ def judge(ctx, case):
     rs = ec.der_parse_strict(s0[:-1])
     add("r changed", un=unlocking_of([ec.der_encode((rs[0] % (ec.N - 2)) + 1, rs[1]) + s0[-1:]] + sigs[1:]))
     add("s changed", un=unlocking_of([ec.der_encode(rs[0], (rs[1] % (ec.HALF_N - 1)) + 1) + s0[-1:]] + sigs[1:]))
-    add("high-S form of the same signature (no claim)", un=unlocking_of([ec.der_encode(rs[0], ec.N - rs[1]) + s0[-1:]] + sigs[1:]))
+    add("high-S form of the same signature", un=unlocking_of([ec.der_encode(rs[0], ec.N - rs[1]) + s0[-1:]] + sigs[1:]))
     for f2 in rnd.sample([f for f in FLAGS if f != s0[-1]], 3):
         add("flag byte swapped", un=unlocking_of([s0[:-1] + bytes([f2])] + sigs[1:]))
     add("flag byte dropped", un=unlocking_of([s0[:-1]] + sigs[1:]))
@@ -530,6 +553,20 @@ def judge(ctx, case):
             it = iter(perm)
             add("multisig keys rotated", lk=[interp.push_of(next(it)) if (t[0] == "push" and t[1] in sc.pubs) else t for t in sc.locking])
         add("multisig dummy element missing", un=unlocking_of(sigs)[1:])
+        # a key slot AFTER the last key that is needed holds bytes that are not a curve point: it is never looked at
+        last_needed = max(signers)
+        if last_needed < n - 1:
+            junk = b"\x02" + b"\xff" * 32
+            it2 = iter(range(n))
+            lk_j = []
+            ki = 0
+            for t_ in sc.locking:
+                if t_[0] == "push" and t_[1] in sc.pubs:
+                    lk_j.append(interp.push_of(junk) if ki > last_needed else t_)
+                    ki += 1
+                else:
+                    lk_j.append(t_)
+            add("multisig with a non-point in an unused key slot behind the last needed key (re-signed over that script)", lk=lk_j, resign=True)
         if case["m"] < n:
             # a valid signature by a later key only
             later = [i for i in range(n) if i not in signers]
@@ -541,6 +578,10 @@ def judge(ctx, case):
         t2 = {"version": tx["version"], "locktime": tx["locktime"], "ins": [dict(i) for i in tx["ins"]], "outs": tx["outs"]}
         t2["ins"][idx]["script"] = wire.detok(un)
         exp = expected_accept(sc, tx, val, un, lk)
+        if name == "high-S form of the same signature":
+            # the statement is read the way the unchanged library behaves: s -> n-s is "a change to a signature" and makes it reject
+            # (the library's verifier only accepts the low-S form, as C05 requires of every signature it produces)
+            exp = False
         noclaim = "(no claim)" in name
         ext = [None] * len(t2["ins"])
         ext[idx] = {"locking": wire.detok(lk).hex(), "satoshis": val}
